@@ -272,4 +272,4 @@ def run(sh):
     if sh.index == 0:
         for sig, detail in prop_module(sh, None):
             sh.fail(sig, detail, None, 'module')
-    sh.search('history', history, prop_history, quick=4000, thorough=200000)
+    sh.search('history', history, prop_history, quick=4000, thorough=80000)
